@@ -66,7 +66,7 @@ def gen_body(r, depth, nattr, allow_bool):
     if k == "asg":
         ops = [("plain", 12), ("star", 2), ("plus", 2)] + ([("bool", 3)] if allow_bool else [])
         op = r.weighted(ops)
-        typ = "KW" if op == "bool" else r.weighted([("INT", 3), ("STRING", 1)])
+        typ = "KW" if op == "bool" else r.weighted([("INT", 6), ("STRING", 2), ("SEPV", 1)])
         sep = gen_sep(r, 0.5) if op in ("star", "plus") else False
         return ["asg", r.below(nattr), op, typ, sep]
     if k == "tok":
@@ -145,7 +145,7 @@ def p_elem(b):
     if k == "ref":
         return "Kw"
     if k == "asg":
-        rhs = {"INT": "INT", "STRING": "STRING", "KW": "'t%d'" % b[1]}[b[3]]
+        rhs = {"INT": "INT", "STRING": "STRING", "SEPV": "sep", "KW": "'t%d'" % b[1]}[b[3]]
         return "%s%s%s%s" % (ATTRS[b[1]], OPS[b[2]], rhs, sep_text(b[4]))
     if k in ("seq", "alt"):
         return "(" + p_inner(b) + ")"
@@ -161,7 +161,8 @@ def p_elem(b):
 
 
 def grammar_text(b):
-    return "Model: %s;\nKw: 'kw';\n" % p_inner(b)
+    # `sep` is an ordinary match rule that happens to be called like the rule name given to separator matches
+    return "Model: %s;\nKw: 'kw';\nsep: /v[0-9]+/;\n" % p_inner(b)
 
 
 def coq_body(b):
@@ -227,6 +228,8 @@ def default_of(b, a, auto_init):
     if len(types) != 1:
         return "N"            # OBJECT: not a base type
     t = next(iter(types))
+    if t == "SEPV":
+        return "N"            # the attribute's type is the match rule `sep`, not a base type
     if auto_init:
         return {"INT": "i0", "STRING": "s", "BOOL": "F"}[t]
     return "F" if t == "BOOL" else "N"
@@ -251,6 +254,9 @@ class Vals:
                 return "0"
             self.n += 1
             return str(self.n)
+        if typ == "SEPV":
+            self.n += 1
+            return "v%d" % self.n
         if self.empty and self.r.chance(0.5):
             self.empty = False
             return "''"
@@ -378,7 +384,8 @@ Definition show_aval (v : aval) : string :=
   match v with AScalar x => show_sval x | AList l => "[" ++ sjoin "," (map show_sval l) ++ "]" end.
 Definition show_out (o : outcome) : string := match o with Ok v => show_aval v | MultipleAssignments => "MA" | Crash => "CRASH" end.
 (* one grammar: error code, then per attribute mult:maxcount, then per trace and attribute the builder outcome and the weight check *)
-Definition show_case (b : body) (ats : list (nat * sval)) (trs : list (list ev)) : string :=
+Definition show_case (b : body) (ats : list (nat * sval)) (nss : list (list anode)) : string :=
+  let trs := map (map (node_ev src_sep_mode)) nss in
   show_nat (grammar_error b) ++ "|" ++
   sjoin "," (map (fun ad => show_mult (infer b (fst ad)) ++ ":" ++ show_nat (maxcount (fst ad) b)) ats) ++ "|" ++
   sjoin ";" (map (fun t => sjoin "," (map (fun ad =>
@@ -412,10 +419,12 @@ def uncanon(s):
 
 
 def coq_trace(tr):
-    evs = []
-    for attr, op, vals, *_ in tr:
-        evs.append("(Ev %d %s [%s])" % (ATTRS.index(attr), COQ_OP[TREE_OP[op]], "; ".join(coq_sval(v) for v in vals)))
-    return "[" + "; ".join(evs) + "]"
+    """The assignment nodes of one parse tree as Coq `anode`s (children tagged separator / named `sep` / value)."""
+    ns = []
+    for attr, op, vals, kids, has_sep in tr:
+        ks = "; ".join("(Child %s %s %s)" % (core.coq_bool(k[0]), core.coq_bool(k[1]), coq_sval(k[2])) for k in kids)
+        ns.append("(ANode %d %s %s [%s])" % (ATTRS.index(attr), COQ_OP[TREE_OP[op]], core.coq_bool(has_sep), ks))
+    return "[" + "; ".join(ns) + "]"
 
 
 def case_attrs(c):
@@ -501,7 +510,8 @@ def oracle(c, o):
             continue
         # every value token of the input is matched by exactly one assignment, in input order
         flat = [v for _, op, vs, *_ in tr for v in vs]
-        toks = ["i%d" % int(t) if t[0].isdigit() else "s" + t[1:-1] for t in re.findall(r"(?<![\w'])\d+\b|'[^']*'", inp)]
+        toks = ["i%d" % int(t) if t[0].isdigit() else ("s" + t if t[0] == "v" else "s" + t[1:-1])
+                for t in re.findall(r"(?<![\w'])\d+\b|'[^']*'|\bv\d+\b", inp)]
         if flat != toks:
             bad.append(("input %r: assignments matched %r, the input's value tokens are %r" % (inp, flat, toks), tags))
         for a in case_attrs(c):
@@ -601,8 +611,8 @@ def run_cases(chk, cases, tag, shard=120):
                     for v in (["T"] if op == "optional" else vs):
                         first.setdefault(at, v)
                 for ev in run["trace"]:
-                    if len(ev) > 4 and ev[4] and len(ev[2]) >= 2:
-                        nsep = len([1 for k, _ in ev[3] if k == "s"])
+                    if ev[4] and len(ev[2]) >= 2:
+                        nsep = len([1 for k in ev[3] if k[0]])
                         chk.stat("list assignment with separator: " + ("all separators present" if nsep == len(ev[2]) - 1 else "some separator matched empty (no node)"))
                 if any(falsy(v) for v in first.values()):
                     chk.stat("accepted input whose first value of some attribute is falsy")
@@ -673,7 +683,7 @@ def run(chk):
         disagreements += d2
     chk.cov["rule"] = ("one-rule grammars whose body is a random AST (depth <= 3) of sequence, ordered choice, optional, * / + repetition (with and "
                        "without separator; separators: ',' /;/ and the nullable /,?/ /;*/, inputs include and omit them) and unordered group (both spellings) over keywords, a rule reference and assignments to 1-3 attributes "
-                       "with = ?= *= += (INT / STRING / keyword right-hand sides), auto_init_attributes on/off; per grammar 3-4 inputs derived from "
+                       "with = ?= *= += (INT / STRING / keyword right-hand sides, and a match rule that is itself named `sep`), auto_init_attributes on/off; per grammar 3-4 inputs derived from "
                        "the body (values distinct, 0 and '' occurring as first values) plus 2 token-level mutations; the multiplicities, the "
                        "assignment events of the real parse tree, the attribute values or the error are compared with Model/Mult.v; "
                        "non-trivial = some attribute is assigned at least twice in the body; distinct by (grammar, auto_init, inputs)"
